@@ -93,13 +93,53 @@ def footprint_control(R, obs, label):
             lines=lines[:50]), found_input=False)
 
 
+def order_control(R, obs, label):
+    """Negative control of the acquisition-order clause (C13 tie, Driver.checkLockOrder): in a sample of traced commands whose trace
+    begins with CheckTTL's read-locked look (`RL<p>,get:ttl:<p>,RU<p>,`) followed by further lock scopes, that first scope is removed.
+    The trace stays disciplined (TraceCheck.ok) and locks the same SET of stripes (checkFootprint's comparison is blind to it), but it is
+    no longer a block sequence of the model's lock program: the driver must report every such line as a lock-order mismatch."""
+    import re
+    lines, n, taken, k = [], 0, False, 0
+    for l in obs:
+        if l.startswith("R"):
+            taken, k = False, 0
+        f = l.split(" ")
+        evi = [i for i, x in enumerate(f) if x.startswith("ev=")]
+        if l.startswith("X ") and evi and any(x.startswith("kp=") for x in f) and cmd_of(l) != "keys" and not taken and n < 400:
+            m = re.match(r"ev=RL(\d+),get:ttl:\1,RU\1,(.*(?:^|,)R?L\d+.*)$", f[evi[0]])
+            if m:
+                k += 1
+                if k % 3 == 0:
+                    f[evi[0]] = "ev=" + m.group(2)
+                    lines.append(" ".join(f))
+                    n += 1
+                    taken = True
+                    continue
+        lines.append(l)
+    if n == 0:
+        return
+    d = core.run_driver(lines)
+    hit = sum(1 for m in d["mismatches"] if "lock order:" in m)
+    # not every damaged line is wrong: with colliding stripes "look, look, block" minus the first look reads as "look, delete, return",
+    # which IS a run of the program (seen: 3-8 % of the sample) — hence the floor of three quarters
+    ok = hit >= max(1, int(n * 0.75))
+    R.oblige("negative control %s/lock-order: the driver objects when a lock scope is missing from the acquisition sequence although the set of "
+             "locked stripes is unchanged (%d of %d reported)" % (label, hit, n), "control", ok, "driver reported %d of %d" % (hit, n))
+    R.extra.setdefault("negative_control", {})[label + "/lock-order"] = dict(damaged=n, reported=hit)
+    if not ok:
+        R.violation("negative-control-lockorder-" + label.replace("/", "-"), dict(
+            kind="tie-broken", summary="the Lean driver accepted %d of %d observation lines from which CheckTTL's lock scope had been removed: the "
+                                       "acquisition-order clause (observed lock scopes = a run of Exec.lockProg) is not judging" % (n - hit, n),
+            lines=lines[:50]), found_input=False)
+
+
 def run_exec_suite(R, ctx, name, gens, nprog, corpus, what, keys=None, maxlen=40, extra_lines=None, events=False, shards=None,
                    cluster=False):
     R.rule = ("programs: 1-%d commands over a small colliding key alphabet (case variants, empty key, CR/LF and binary keys), generated from the "
               "command family's grammar with mostly-valid arguments plus arity/option damage; after every command the reply bytes and the dump of "
               "the touched keys (every 10th command and the last: the whole keyspace and its counter) are compared with the Lean model%s "
               "Covers: %s. A command is non-trivial when the model's reply is not an error; distinct = distinct command lines."
-              % (maxlen, " and, with hook H2 recording, the stripes the command locked (and their modes) with the model footprint Exec.lockPlan."
+              % (maxlen, " and, with hook H2 recording, the lock scopes of the command (which stripes, in which order and mode, scope after scope) with the model's lock program Exec.lockProg (whose keys are Exec.lockPlan's)."
                  if events else ".", what))
     binary, err = core.build_harness()
     R.oblige("harness builds against /repo working tree (-tags verif)", "build", binary is not None, err or "")
@@ -133,6 +173,7 @@ def run_exec_suite(R, ctx, name, gens, nprog, corpus, what, keys=None, maxlen=40
     core.negative_control(R, obs[:60000], "exec/" + name, skip=lambda l: not l.startswith("X ") or " => " not in l, group=True)
     if events:
         footprint_control(R, obs[:60000], "exec/" + name)
+        order_control(R, obs[:60000], "exec/" + name)
     dist = collections.Counter(cmd_of(l) for l in obs if l.startswith("X"))
     errs = sum(1 for l in obs if " => " in l and l.split(" => ")[1].split()[2:3] and l.split(" => ")[1].split()[2].startswith("2d"))
     distinct = len(set(l.split(" => ")[0].split(" ", 2)[2] for l in obs if l.startswith("X") and len(l.split(" => ")[0].split(" ", 2)) > 2))
